@@ -10,11 +10,12 @@ def run(ctx):
     T.tbl12_xor_stream_fields(ctx)
     W.wid3_response_layouts(ctx)
     W.flw12_widen_before_subtract(ctx)
+    W.flt1_lossless_float_codec_compares_bits(ctx)
     M.lit1_null_patterns(ctx)
     return ctx.finish(
         'Static rules: the ingestion message codec and the response codec map every variant to '
         'union members the reader maps back to the same variant; each narrow integer layout is '
         'guarded by the bounds of its own type on the matching statistic, double-delta layouts only '
         'when first differences fit i64; statistics widen before subtracting; NULL NaN pattern '
-        'consistent. The XOR float stream codec and the delta arithmetic itself are NOT decided.',
+        'consistent; the XOR float stream codec agrees on field widths/biases and never branches on a float comparison. The XOR state machine and the delta arithmetic themselves are NOT decided.',
         trusted_base=['rustc MIR printer of the pinned toolchain', 'mirlib text parser', 'syn'])
